@@ -427,4 +427,266 @@ def redefinitionCompleted (H : Decl → Nat) (c0 : Ctx) : St → List Ev → Boo
     | .ok st' => completesExisting c0 st e || redefinitionCompleted H c0 st' es
     | .error _ => false
 
+
+/-! ## the statement level: names instead of ids, FOR / FORALL headers with the clause entry, no assumed guard
+
+The id-based events above are what a trace shows. What a TEXT says is names: `for i in … loop` is
+`registerSymbol("I", INTEGER)` followed — after the header expressions — by `parse_clause` on the id that call
+returned; `forall e in t loop` is the "protected symbol" test on `E`, the target expression (a plain variable `T`
+gives `sid`), `registerSymbol("E", element type)`, then `parse_clause`. Here the two `parse_clause` entries are
+transcribed WITHOUT the guard "the control variable / iterator is not locked" that `enterFor` / `enterForall`
+carry: the C++ has no such test there. That the guard never fires is a theorem (Proofs/C11: `for_guard_derived`,
+`forall_guard_derived`), not an assumption. -/
+
+/-- entry of `FORStatement::parse_clause`, as written: `safety_bak = vt.safety(); vt.safety(true);` -/
+def enterForRaw (c : Ctx) (i : Nat) : Option (Ctx × Frame) :=
+  match c.fls[i]? with
+  | some fl => some ({ c with exec := c.exec + 1, fls := modAt (setSafe true) i c.fls }, .forC i fl.safety)
+  | none => none
+
+/-- entry of `FORALLStatement::parse_clause`, as written -/
+def enterForallRaw (c : Ctx) (v : Nat) (tgt : Option Nat) : Option (Ctx × Frame) :=
+  match c.fls[v]? with
+  | some fv =>
+    let fls1 := modAt (setSafe true) v c.fls
+    match tgt with
+    | none => some ({ c with exec := c.exec + 1, fls := fls1 }, .forallC v fv.safety fv.locked none)
+    | some t =>
+      match fls1[t]? with
+      | some ft =>
+        let fls2 := modAt (setLock true) t fls1
+        let fls3 := modAt (setLock ft.locked) v fls2
+        some ({ c with exec := c.exec + 1, fls := fls3 }, .forallC v fv.safety fv.locked (some (t, ft.locked)))
+      | none => none
+  | none => none
+
+/-- `Type::INTEGER`: the type the FOR header registers its control variable with -/
+def intTy : Ty := ⟨INTEGER, 0, 0⟩
+
+/-- statement-level events: what the text says (names), one per statement head -/
+inductive NEv
+  /-- LET / LETN: `registerSymbol` -/
+  | reg (name : String) (r : RegTy)
+  /-- `for <name> in … loop`: header accepted (expressions well typed), up to and including the clause entry -/
+  | forLoop (name : String)
+  /-- `forall <vname> in <expr> loop`: `r` = the element type of the table expression, `tgt` = the name of the
+  table when the expression is a plain variable (`_exp->symbolId()`) -/
+  | forallLoop (vname : String) (r : RegTy) (tgt : Option String)
+  | enterBlk
+  | leave
+  | fnBegin (name : String) (arity : Nat) (fid : Nat)
+  | fail
+  deriving DecidableEq, Repr
+
+/-- inside a function body the private context takes the effects: only the nesting depth matters -/
+def NEv.inChild : NEv → Ev
+  | .reg n r => .reg n r
+  | .forLoop _ => .enterBlk
+  | .forallLoop _ _ _ => .enterBlk
+  | .enterBlk => .enterBlk
+  | .leave => .leave
+  | .fnBegin n a f => .fnBegin n a f
+  | .fail => .fail
+
+/-- `FORALLStatement::parse`: `const Symbol * s = ctx.findSymbol(vname); if (s && s->safety()) throw …` -/
+def protectedIter (c : Ctx) (v : String) : Bool :=
+  match findName v c.names with
+  | some i => (match c.fls[i]? with | some fl => fl.safety | none => true)
+  | none => false
+
+/-- the symbol id of the target expression (parsed before the iterator is registered); an unknown name is an
+"undefined symbol" ParseError -/
+def targetId (c : Ctx) : Option String → Option (Option Nat)
+  | none => some none
+  | some tn => (findName tn c.names).map some
+
+def ofExcept (st : St) : Except PErr St → Bool × St
+  | .ok st' => (false, st')
+  | .error _ => (true, st)
+
+/-- one statement head: `(threw, state at the throw / after the statement head)` -/
+def nstepE (H : Decl → Nat) (st : St) (e : NEv) : Bool × St :=
+  match st.child with
+  | some _ => ofExcept st (step H st e.inChild)
+  | none =>
+    match e with
+    | .reg n r => ofExcept st (step H st (.reg n r))
+    | .enterBlk => ofExcept st (step H st .enterBlk)
+    | .leave => ofExcept st (step H st .leave)
+    | .fnBegin n a f => ofExcept st (step H st (.fnBegin n a f))
+    | .fail => (true, st)
+    | .forLoop n =>
+      match registerSymbol H st.ctx n (.plain intTy) with
+      | .error _ => (true, st)
+      | .ok c1 =>
+        let st1 : St := { st with ctx := c1 }
+        match findName n c1.names with
+        | none => (true, st1)
+        | some i =>
+          match enterForRaw c1 i with
+          | some (c2, fr) => (false, { st1 with ctx := c2, stack := fr :: st.stack })
+          | none => (true, st1)
+    | .forallLoop v r tgt =>
+      if protectedIter st.ctx v then (true, st) else
+      match targetId st.ctx tgt with
+      | none => (true, st)
+      | some t =>
+        match registerSymbol H st.ctx v r with
+        | .error _ => (true, st)
+        | .ok c1 =>
+          let st1 : St := { st with ctx := c1 }
+          match findName v c1.names with
+          | none => (true, st1)
+          | some i =>
+            match enterForallRaw c1 i t with
+            | some (c2, fr) => (false, { st1 with ctx := c2, stack := fr :: st.stack })
+            | none => (true, st1)
+
+def nrun (H : Decl → Nat) : St → List NEv → Bool × St
+  | st, [] => (false, st)
+  | st, e :: es =>
+    match nstepE H st e with
+    | (true, s) => (true, s)
+    | (false, s) => nrun H s es
+
+/-- `Parser::parse` on a text given by its statement heads -/
+def parseTextN (H : Decl → Nat) (c : Ctx) (evs : List NEv) : Outcome :=
+  let (threw, st) := nrun H (St.init c) evs
+  if threw || !st.stack.isEmpty || st.child.isSome then .reject (parsingEnd H (unwind st))
+  else .accept (parsingEnd H st.ctx)
+
+/-- the id events a statement head performs in state `st` (what the parser's `findSymbol` resolves the names to) -/
+def compile1 (H : Decl → Nat) (st : St) (e : NEv) : List Ev :=
+  match st.child with
+  | some _ => [e.inChild]
+  | none =>
+    match e with
+    | .reg n r => [.reg n r]
+    | .enterBlk => [.enterBlk]
+    | .leave => [.leave]
+    | .fnBegin n a f => [.fnBegin n a f]
+    | .fail => [.fail]
+    | .forLoop n =>
+      match registerSymbol H st.ctx n (.plain intTy) with
+      | .error _ => [.reg n (.plain intTy)]
+      | .ok c1 =>
+        match findName n c1.names with
+        | none => [.reg n (.plain intTy), .fail]
+        | some i => [.reg n (.plain intTy), .enterFor i]
+    | .forallLoop v r tgt =>
+      if protectedIter st.ctx v then [.fail] else
+      match targetId st.ctx tgt with
+      | none => [.fail]
+      | some t =>
+        match registerSymbol H st.ctx v r with
+        | .error _ => [.reg v r]
+        | .ok c1 =>
+          match findName v c1.names with
+          | none => [.reg v r, .fail]
+          | some i => [.reg v r, .enterForall i t]
+
+def compile (H : Decl → Nat) : St → List NEv → List Ev
+  | _, [] => []
+  | st, e :: es =>
+    compile1 H st e ++ (match nstepE H st e with | (true, _) => [] | (false, s) => compile H s es)
+
+/-- the three columns of the storage pool have one length -/
+def Ctx.aligned (c : Ctx) : Prop := c.tds.length = c.names.length ∧ c.fls.length = c.names.length
+
+instance (c : Ctx) : Decidable c.aligned := by unfold Ctx.aligned; exact inferInstance
+
+/-! ## histories: a sequence of texts submitted to one context
+
+`Parser::parse` / `parseStatement` / `bloc_parse_executable` are called again and again on the same `Context`.
+What one call leaves behind for the next: the symbol columns (new names stay, also after a reject), the function
+table, and `FunctorManager::_backed` — which is cleared ONLY by the next `createOrReplace` (`_backed.reset()` is its
+first statement) and by `FunctorManager::reset`; not by `parsingBegin`, not by `parsingEnd`, not by `rollback`
+(after a rollback it holds the functor of the failed declaration). `Ctx.fbacked` carries it across texts as is. -/
+
+abbrev Text := List NEv
+
+def Outcome.ctx : Outcome → Ctx
+  | .accept c => c
+  | .reject c => c
+
+def Outcome.ok : Outcome → Bool
+  | .accept _ => true
+  | .reject _ => false
+
+def Outcome.map (f : Ctx → Ctx) : Outcome → Outcome
+  | .accept c => .accept (f c)
+  | .reject c => .reject (f c)
+
+/-- verdicts of the texts of a history, and the context after the last one -/
+def runHistory (H : Decl → Nat) : Ctx → List Text → List Bool × Ctx
+  | c, [] => ([], c)
+  | c, t :: ts =>
+    let o := parseTextN H c t
+    let r := runHistory H o.ctx ts
+    (o.ok :: r.1, r.2)
+
+/-! ## what a left-over is: columns inserted at a fixed position
+
+After a rejected text the names it introduced stay in the pool behind the old ones, and the texts that follow
+append behind THEM. Compared with the same history without the rejected text, every later context is the
+undisturbed one with the left-over slots inserted at position `n0` (functions: at `m0`), and ids at or above
+`n0` are shifted. `lift` is that insertion; `Proofs/Lemmas/ParseSim.lean` shows that every step of the machine commutes
+with it for texts that do not mention the left-over names. -/
+
+structure Extra where
+  n0 : Nat
+  names : List String
+  tds : List TD
+  fls : List Fl
+  m0 : Nat
+  fns : List Fn
+  deriving Repr
+
+def ins {α} (n0 : Nat) (xs l : List α) : List α := l.take n0 ++ xs ++ l.drop n0
+
+def ren (n0 k i : Nat) : Nat := if i < n0 then i else i + k
+
+def Extra.ρ (x : Extra) (i : Nat) : Nat := ren x.n0 x.names.length i
+
+def Frame.ren (ρ : Nat → Nat) : Frame → Frame
+  | .blk => .blk
+  | .forC i sb => .forC (ρ i) sb
+  | .forallC v sb lb tgt => .forallC (ρ v) sb lb (tgt.map fun p => (ρ p.1, p.2))
+
+def Ev.ren (ρ : Nat → Nat) : Ev → Ev
+  | .reg n r => .reg n r
+  | .enterFor i => .enterFor (ρ i)
+  | .enterForall v t => .enterForall (ρ v) (t.map ρ)
+  | .enterBlk => .enterBlk
+  | .leave => .leave
+  | .fnBegin n a f => .fnBegin n a f
+  | .fail => .fail
+
+/-- the context `c` with the left-overs `x` inserted and `_backed = g` -/
+def lift (x : Extra) (g : Option Fn) (c : Ctx) : Ctx :=
+  { names := ins x.n0 x.names c.names, tds := ins x.n0 x.tds c.tds, fls := ins x.n0 x.fls c.fls,
+    backed := c.backed.map fun b => ⟨x.ρ b.id, b.td⟩, exec := c.exec, parsing := c.parsing,
+    fns := ins x.m0 x.fns c.fns, fbacked := g }
+
+def liftSt (x : Extra) (g : Option Fn) (st : St) : St :=
+  ⟨lift x g st.ctx, st.stack.map (Frame.ren x.ρ), st.child⟩
+
+/-- the event does not mention a left-over name / function -/
+def Ev.avoids (x : Extra) : Ev → Bool
+  | .reg n _ => !x.names.contains n
+  | .fnBegin n a _ => x.fns.all fun f => !f.is n a
+  | _ => true
+
+def NEv.avoids (x : Extra) : NEv → Bool
+  | .reg n _ => !x.names.contains n
+  | .forLoop n => !x.names.contains n
+  | .forallLoop v _ tgt => !x.names.contains v && (match tgt with | some t => !x.names.contains t | none => true)
+  | .fnBegin n a _ => x.fns.all fun f => !f.is n a
+  | _ => true
+
+/-- what a context has more than `c0` (symbols behind the first `|c0|`, functions behind the first `|c0.fns|`) -/
+def leftOver (c0 c' : Ctx) : Extra :=
+  ⟨c0.names.length, c'.names.drop c0.names.length, c'.tds.drop c0.names.length, c'.fls.drop c0.names.length,
+   c0.fns.length, c'.fns.drop c0.fns.length⟩
+
 end BlocV.ParseCtx
